@@ -294,15 +294,16 @@ func (e *posError) Position() token.Pos         { return e.pos }
 
 // Append combines two errors, flattening lists as necessary.
 //
-// Note: this may mutate a if it is already a list, so
-// must not be used if a might have been shared across multiple
-// goroutines.
+// Append does not modify a: if a is a list, the result is a new list.
+// Errors are part of evaluated values, which may be shared between
+// goroutines, so appending must never write into the spare capacity of
+// an existing list.
 func Append(a, b Error) Error {
 	switch x := a.(type) {
 	case nil:
 		return b
 	case list:
-		return appendToList(x, b)
+		return appendToList(slices.Clip(x), b)
 	}
 	// Preserve order of errors.
 	return appendToList(list{a}, b)
